@@ -289,6 +289,14 @@ class Check:
         """run the Lean model on the requests (one JSON per line in, one per line out)"""
         if not requests:
             return []
+        # the driver imports every generated module: make sure each exists (normally setup.sh has run them all)
+        missing = []
+        for g in sorted(PY2LEAN.glob("gen_*.py")):
+            mod = __import__(g.stem)
+            if hasattr(mod, "TARGET") and not (LEAN / "Simaple" / "Gen" / mod.TARGET).exists():
+                missing.append(g.stem[4:])
+        if missing:
+            self.regenerate(missing)
         ok, log = self.lake_build(["Simaple.Model.All"])
         if not ok:
             self.broken.append({"kind": "model-build", "log_tail": log[-1500:]})
